@@ -382,6 +382,85 @@ func showTypes(xs []any) string {
 	return s + "]"
 }
 
+// c13LongBatches: the long regime. One Push of 8..70 values with Stacks / aliases / pointers to aliases at
+// chosen positions (one or two of them), the option on and off, with and without capacity, with and without
+// an accept-all push policy: every value that is not a Stack is stored, in order, as far as room remains.
+func c13LongBatches(c *Ctx) int {
+	n := 0
+	lens := []int{8, 16, 17, 20, 33, 40}
+	if !c.Quick() {
+		lens = []int{8, 9, 15, 16, 17, 18, 20, 31, 32, 33, 34, 40, 64, 65, 70, 130}
+	}
+	for li, L := range lens {
+		for _, at := range [][]int{{0}, {4}, {L / 2}, {L - 1}, {15 % L}, {16 % L}, {2, L - 2}, {}} {
+			for variant := 0; variant < 8; variant++ {
+				flag, capped, pol := variant&1 != 0, variant&2 != 0, variant&4 != 0
+				vals := make([]any, L)
+				for i := range vals {
+					vals[i] = fmt.Sprintf("v%d", i)
+				}
+				classes := []string{"stack", "alias", "ptr-alias", "aliasS", "ptr-stack"}
+				in := &nestInst{}
+				for k, p := range at {
+					v, _ := in.mk(classes[(li+k+variant)%len(classes)])
+					vals[p] = v
+				}
+				capk := 0
+				var s stackage.Stack
+				if capped {
+					capk = L - 3
+					s = newStackKind(kindNames[(li+variant)%5], capk)
+				} else {
+					s = newStackKind(kindNames[(li+variant)%5])
+				}
+				if pol {
+					s.SetPushPolicy(func(...any) error { return nil })
+				}
+				s.SetNoNesting(flag)
+				var want []any
+				for _, v := range vals {
+					// (SetNoNesting documents that the option has no say while a push policy is installed)
+					if flag && !pol && isStackLike(v) {
+						continue
+					}
+					if capk > 0 && len(want) >= capk {
+						break
+					}
+					want = append(want, v)
+				}
+				offered := append([]any{}, vals...)
+				p := noPanic(func() { s.Push(vals...) })
+				n++
+				c.Transitions.Add(1)
+				desc := fmt.Sprintf("one Push of %d values with Stack-like values at %v on a %s (no-nesting=%v capacity=%d push-policy=%v)", L, at, s.Kind(), flag, capk, pol)
+				if p != "" {
+					c.Violation("long-batch:panic", desc+" panicked: "+p, nil, L)
+					continue
+				}
+				if got := contents(s); !sameList(got, want) {
+					c.Violation("long-batch:content", fmt.Sprintf("%s stored %d values %s, want %d: %s", desc, len(got), showTypes(got[:min(len(got), 6)]), len(want), showTypes(want[:min(len(want), 6)])), nil, L)
+				}
+				if !sameList(vals, offered) {
+					c.Violation("long-batch:offered-batch-modified", desc+" rewrote the caller's slice", nil, L)
+				}
+				wantNesting := false
+				for _, v := range want {
+					if isStackLike(v) {
+						wantNesting = true
+					}
+				}
+				if s.IsNesting() != wantNesting {
+					c.Violation("long-batch:IsNesting", fmt.Sprintf("%s: IsNesting()=%v want %v", desc, s.IsNesting(), wantNesting), nil, L)
+				}
+				if len(at) > 0 && flag && !pol {
+					c.Nontrivial(desc)
+				}
+			}
+		}
+	}
+	return n
+}
+
 type c13Cfg struct {
 	Kind     string
 	MaxL     int
@@ -434,6 +513,7 @@ func init() {
 			// alias types first met in hollow form: the order in which values of a type arrive must not matter
 			c.Violation("hollow-value-seen-first", "after nil pointers / zero values of an alias type had been the first values of that type the library saw: "+msg, nil, 0)
 		}
+		c.Bound["long_batches"] = c13LongBatches(c)
 		c.Rule = "BFS to fix-point: state = element classes (primitive, nil, Stack, alias, alias with String, pointer to alias, pointer to Stack, nil pointer to alias / to Stack, Condition, Condition holding a Stack) x no-nesting flag; alphabet = every push batch up to the batch bound over those classes, set/clear/toggle of the option, Pop; a Condition machine does the same with SetExpression; non-trivial = distinct (state size, operation) where a Stack-like value was offered while the option was set"
 		c.Exhaustive = true
 		for _, cfg := range c13Configs(c) {
